@@ -174,6 +174,10 @@ def check_catalog(cid, opsets, acc=None):
                 if "NOT_IMPLEMENTED" in msg or "Could not find an implementation" in msg or "under development" in msg:
                     if acc:
                         acc.tally("environment_limits", msg[:80])
+                elif isinstance(e, MemoryError) or not msg.strip() or any(k in msg for k in ("bad allocation", "bad_alloc", "Failed to allocate")):
+                    if acc:
+                        acc.inconclusive += 1
+                        acc.tally("environment_limits", "ort: empty message / allocation failure (inconclusive)")
                 else:
                     probs.append(("ort", "?", msg[:250]))
             if ort_ok and base_out is not None and not case["tc"].get("skip_numeric_validation"):
